@@ -519,7 +519,7 @@ def run(ctx):
             if c == "uucore::mode::parse_numeric":
                 mo = prim.origin_of_operand(pmode, t.args[0]).strip()
                 ctx.ob("R4", "numeric-from-zero", mo.k == "const" and mo.a.get("v") == 0, "parse_numeric starts from %s; oracle 0" % mo.fmt(), fn=pmode, where=prim.site(pmode, b), how="constant argument")
-        mode_l = pmode.locals_named("mode")
+        mode_l = [l_ for l_ in C.find_local(pmode, "mode", ty="u32", pred=lambda fn_, l_: len(prim.local_defs(fn_).get(l_, [])) >= 2) if pmode.local_ty(l_) == "u32"] or pmode.locals_named("mode")
         inits = []
         for l in mode_l:
             for bb, v in prim.const_assigns_to(pmode, l):
